@@ -15,6 +15,9 @@ read_signal(..., force_as="sph") from a path and from a stream.  Enumerated comp
   truncation    every byte length of the data section of small files (mono and multi-channel)
                 plus lengths around each of the three read boundaries of four-read files
   header_faults every prefix shorter than 1024 bytes, wrong magic, header size < 1024
+  file_objects  complete / truncated / faulty files through every kind of binary file object (regular,
+                unbuffered, fdopen, TemporaryFile, SpooledTemporaryFile, pipe, gzip, mmap, objects with no
+                `name` or a `name` of any type)
 
 The shorten-compressed path (copy_shortened_samples) belongs to C13 and is not touched here.
 """
@@ -43,7 +46,9 @@ ASSUMPTIONS = [
     "header size' (>= 1024), the size line is what locates the samples, and libsndfile's NIST "
     "reader decodes the reference writer's 1025/1500/2047/2049/4000-byte headers identically "
     "(selftest); a size smaller than the layout's own fields is not a header and is skipped",
-    "streams are io.BytesIO / regular files, i.e. read(n) returns n bytes unless at end of file",
+    "streams: read(n) returns n bytes unless at end of file (io.BytesIO in the other sub-checks; file_objects: "
+    "the 21 kinds of mc/refs/sphere.py STREAM_KINDS, all of which have that read(); a pipe is read through a "
+    "BufferedReader, which blocks until n bytes or end of file)",
     "sample_count = 0 and PCM with a requested 1-byte dtype are outside the property and skipped",
     "wide_frames: 'any channel count' is probed at the channel counts that put ONE frame on and next to "
     "1/2, 1, 2, 3 and 4 times the reader's 16384-byte read (4096 .. 32769 channels), 1..5 samples each",
@@ -111,6 +116,10 @@ def _read(data, access, dtype, tmpdir):
                 with open(p, "wb") as f:
                     f.write(data)
                 out = util.read_signal(p, dtype=dtype)
+            elif access.startswith("obj:") and access[4:] in sph.STREAM_KINDS:
+                # every kind of binary file object (sub-check file_objects)
+                with sph.open_stream(access[4:], data, tmpdir) as f:
+                    out = util.read_signal(f, dtype=dtype, force_as="sph")
             else:
                 raise core.HarnessError("access %r" % (access,))
             r = ("ok", out)
@@ -136,6 +145,22 @@ class _Tmp:
 
     def __exit__(self, *a):
         shutil.rmtree(self.d, ignore_errors=True)
+
+
+_NAME_CLASS = {}
+
+
+def _acc_tags(access):
+    """{} for the BytesIO / path accesses of the other sub-checks; for a file object of sub-check file_objects:
+    what its `name` attribute is (absent, str, bytes, int, NoneType, PathLike) and whether it is a pipe"""
+    if not access.startswith("obj:"):
+        return {}
+    kind = access[4:]
+    if kind not in _NAME_CLASS:
+        with _Tmp() as tmp:
+            with sph.open_stream(kind, b"x", tmp) as f:
+                _NAME_CLASS[kind] = sph.name_class(f)
+    return dict(file_object=True, name_attr=_NAME_CLASS[kind], pipe=(kind == "pipe"))
 
 
 def _base_tags(coding, channels):
@@ -245,7 +270,7 @@ def _lattice_case(case, seed, tmpdir, cache=None):
         return None, "skipped"
     head = sph.header_variant(variant, coding, ch, count)
     r = _read(head + body, access, dtype, tmpdir)
-    tags = dict(_base_tags(coding, ch), sub="lattice", **_hdr_tags(len(head)))
+    tags = dict(_base_tags(coding, ch), sub="lattice", **_hdr_tags(len(head)), **_acc_tags(access))
     if r[0] == "exc":
         return core.violation(dict(tags, what="exception", exc=type(r[1]).__name__),
                               "well-formed file raised %s: %s" % (type(r[1]).__name__, _clean(r[1])),
@@ -520,7 +545,7 @@ def _trunc_case(case, seed, tmpdir, cache=None):
     present = nbytes // fs
     want = _expected(coding, stored[:present], dtype)
     r = _read(full[:hdr + nbytes], access, dtype, tmpdir)
-    tags = dict(_base_tags(coding, ch), sub="truncation", **_hdr_tags(hdr))
+    tags = dict(_base_tags(coding, ch), sub="truncation", **_hdr_tags(hdr), **_acc_tags(access))
     case = dict(case, kind="truncation")
     where = "%s %dch header=%s promises %d samples, data section cut to %d of %d bytes (%d whole " \
         "samples) %s" % (coding, ch, variant, count, nbytes, count * fs, present, access)
@@ -587,7 +612,7 @@ def _fault_bytes(case, seed):
 def _fault_case(case, seed, tmpdir):
     data, expect = _fault_bytes(case, seed)
     r = _read(data, case["access"], None, tmpdir)
-    tags = dict(sub="header_faults", fault=case["fault"])
+    tags = dict(sub="header_faults", fault=case["fault"], **_acc_tags(case["access"]))
     case = dict(case, kind="fault")
     if expect == "ok":
         if r[0] != "ok":
@@ -635,6 +660,62 @@ def _fault_points():
                  b"\x89HDF\r\n\x1a\n", b"FORM\x00\x00\x10\x00AIFF", b""):
         cases.append(dict(fault="foreign", head=head.hex(), pad=4096))
     return [dict(cases=cases[i:i + 64]) for i in range(0, len(cases), 64)]
+
+
+
+# ------------------------------------------------------------------ every kind of binary file object
+
+
+FO_DTYPES = (None, "float32", "uint8")
+FO_HEADERS = ("h1024", "h1500")
+FO_FAULTS = (dict(fault="prefix", size=1024, length=0),
+             dict(fault="prefix", size=1024, length=100), dict(fault="prefix", size=2048, length=1023),
+             dict(fault="magic", magic=b"NIST_1B".hex()), dict(fault="size", text="    512"),
+             dict(fault="foreign", head=b"RIFF\x00\x10\x00\x00WAVEfmt ".hex(), pad=4096))
+
+
+def _fo_counts(coding, ch):
+    fs = ch * sph.bytes_per_sample(coding)
+    return (5, READ // fs + 2)            # one read; two reads (a frame straddles them when fs does not divide)
+
+
+def _file_objects(pt, seed):
+    """pt = (kind of file object, coding): complete files, truncated files and header faults read through
+    that kind of object with the oracles of lattice / truncation / header_faults"""
+    kind, coding = pt
+    access = "obj:" + kind
+    viol, obs, evals, skipped = [], set(), 0, 0
+    cache = {}
+    with _Tmp() as tmp:
+        for ch in (1, 2, 3):
+            fs = ch * sph.bytes_per_sample(coding)
+            for count in _fo_counts(coding, ch):
+                for variant in FO_HEADERS:
+                    for dtype in FO_DTYPES:
+                        v, o = _lattice_case(dict(coding=coding, channels=ch, header=variant, count=count,
+                                                  dtype=dtype, access=access), seed, tmp, cache)
+                        if o == "skipped":
+                            skipped += 1
+                            continue
+                        evals += 1
+                        obs.add(("complete", o, dtype))
+                        if v is not None:
+                            viol.append(v)
+                for nbytes in sorted(set((0, fs + 1, count * fs - 1, (count - 1) * fs))):
+                    v, o = _trunc_case(dict(coding=coding, channels=ch, header="h1024", count=count,
+                                            data_bytes=nbytes, access=access, dtype=None), seed, tmp)
+                    evals += 1
+                    obs.add(("truncated", o))
+                    viol += v
+        for case in FO_FAULTS:
+            v, o = _fault_case(dict(case, coding=coding, access=access), seed, tmp)
+            evals += 1
+            obs.add(("fault", o))
+            viol += v
+    return core.result(viol, evals=evals, nontrivial_count=evals, skipped=skipped, obs=sorted(map(str, obs)),
+                       sample=dict(file_object=kind, coding=coding,
+                                   inner="channels 1..3 x {5 samples, two reads} x {complete: 2 headers x 3 dtypes; "
+                                         "data section cut at 4 lengths} + 6 header faults"))
 
 
 # ------------------------------------------------------------------ call histories, results held
@@ -1031,4 +1112,19 @@ def subchecks(tier, seed):
             "with 1024/1025/1500/2048/4000-byte headers are positive controls",
             axes=dict(fault=["prefix 0..1023", "magic", "size<1024", "foreign"], access=list(ACCESS)),
             replay=lambda case: _replay(case, seed), kind="fault_enumeration"),
+        core.SubCheck(
+            "file_objects", [(k, c) for k in sph.STREAM_KINDS for c in sph.CODINGS],
+            lambda p: _file_objects(p, seed),
+            "read_signal(f, force_as='sph') through EVERY kind of binary file object %r (mc/refs/sphere.py: "
+            "what the standard library hands out - regular, unbuffered, descriptor-based, temporary, spooled "
+            "(rolled over or not), a pipe fed by a thread, buffered BytesIO, gzip, mmap - and minimal objects with "
+            "no `name` / a `name` that is None, an int, bytes, a PathLike, '', '<stdin>', 'some/dir/') x coding; "
+            "inner loop channels 1..3 x {5 samples, two 16384-byte reads} x {complete file: headers %r x dtype "
+            "{None,float32,uint8} (oracle of lattice); data section cut to 0, one frame + 1, all but one frame, all "
+            "but one byte (oracle of truncation: warning + the whole samples present)} and 6 header faults "
+            "(=> IOError); every evaluation is non-trivial" % (list(sph.STREAM_KINDS), list(FO_HEADERS)),
+            axes=dict(file_object=list(sph.STREAM_KINDS), coding=list(sph.CODINGS), channels=[1, 2, 3],
+                      count=["5", "16384//frame + 2"], header=list(FO_HEADERS), dtype=list(FO_DTYPES),
+                      faults=[dict(f) for f in FO_FAULTS]),
+            replay=lambda case: _replay(case, seed)),
     ]
